@@ -117,6 +117,31 @@ class Effects:
             chain, root = field_chain(e)
             if chain and not self._is_fresh_local(b, root):
                 self._record(eff, b, chain, pl["ty"], "assign", bi)
+            elif not chain and not self._is_fresh_local(b, root):
+                # whole-value replacement of a long-lived struct (`*self = Self { .. }`): every field is written
+                # except those whose new value is provably the old value of the same field
+                adt = U.adt_of(self.facts, pl["ty"])
+                if adt in self.local_adts and self.facts.adts[adt]["kind"] == "struct" and \
+                        self.facts.ty(pl["ty"]).get("k") == "adt":
+                    new = sy.rvalue(st["rv"])
+                    target = S.strip_refs(e)
+                    fields = [f["name"] for f in self.facts.adts[adt]["variants"][0]["fields"]]
+                    kept = set()
+                    if new[0] == "agg" and new[1] == "adt" and len(new[3]) == len(fields):
+                        for fname, op in zip(new[4] or fields, new[3]):
+                            if self._is_old_value(op, target, fname):
+                                kept.add(fname)
+                    for f in self.facts.adts[adt]["variants"][0]["fields"]:
+                        if f["name"] in kept:
+                            continue
+                        eff.add((adt, f["name"]))
+                        self.why.setdefault((b.id, (adt, f["name"])), ("whole-struct-assign", bi))
+                        for inner in self._adts_in_type(f["ty"]):
+                            a = self.facts.adts[inner]
+                            if a["kind"] == "struct":
+                                for fld in a["variants"][0]["fields"]:
+                                    eff.add((inner, fld["name"]))
+                                    self.why.setdefault((b.id, (inner, fld["name"])), ("reset-by-assign", bi))
         for bi, t in b.calls():
             name = (t.get("cn") or "").rsplit("::", 1)[-1]
             if any((t.get("cn") or "").endswith(x) for x in READ_ONLY_MUT_CALLEES):
@@ -142,6 +167,15 @@ class Effects:
                         continue
                 self._record(eff, b, chain, None, "call:" + name, bi)
         return eff
+
+    def _is_old_value(self, op, target, fname):
+        """op is `target.fname` (copied, or moved out with mem::replace / mem::take)"""
+        x = S.strip_refs(op)
+        if x[0] == "call" and x[1] in ("std::mem::replace", "std::mem::take", "core::mem::replace", "core::mem::take") and x[2]:
+            x = S.strip_refs(x[2][0])
+        if x[0] == "call" and x[1].endswith("Clone::clone") and x[2]:
+            x = S.strip_refs(x[2][0])
+        return x[0] == "field" and str(x[2]) == fname and S.strip_refs(x[1]) == target
 
     def _is_fresh_local(self, b, root):
         """writes into a value constructed in this body (a fresh local) are not effects on long-lived state"""
